@@ -1,10 +1,11 @@
 /-
 C14 — Aliases: either name sets the field, both together are an error.
 
-Property theorems only (helper lemmas live in Lemmas/EnvAlias.lean).
+Property theorems only (helper lemmas live in Lemmas/EnvAlias.lean and Lemmas/AliasDepth.lean).
 -/
 import DialsModel.Model.TfSpec
 import DialsModel.Lemmas.EnvAlias
+import DialsModel.Lemmas.AliasDepth
 
 namespace Dials.C14
 open Dials Dials.Tf
@@ -275,5 +276,368 @@ theorem C14_alias_first :
     (Facts.chainPFlag.head? = some ["alias", "dials", "dialspflag", "dialspflagshort"]) ∧
     (aliasMangler ["dials"]).recurse = true := by
   refine ⟨rfl, rfl, rfl, rfl⟩
+
+/-! ### the four patterns inside a layer of fields and at any nesting depth
+
+`unmangleLayer fuel (aliasMangler tags) fs vals` is ONE reverse pass of the alias mangler (ReverseTranslate's loop
+with its running offset, recursing into struct-typed fields) over the layer of fields `fs`, on the values `vals` of
+the layer's OUTPUT fields (an aliased field has two: primary, alias copy).  Vocabulary (Lemmas/AliasDepth.lean):
+`NoAliasTag tags h` is the hypothesis of `C14_no_alias`; `Plain tags fs`: every field of `fs` satisfies it and has
+no struct below it (`structish = none`); `aliasWidth tags f` is the number of output fields of `f` (2 if aliased,
+else 1); `seqOut a b` runs `a` then `b` (the first failure wins) and appends the results; `mapOut g` maps a result
+and keeps a failure.  The fuel is an artefact of the model's termination argument: every bound below is explicit. -/
+
+/-- THE FOUR PATTERNS IN A LAYER WITH SIBLINGS.  An aliased leaf field `(h, t)` between fields without alias tags
+and without structs below them: on the values `vpre ++ [vp, va] ++ vpost` (one per sibling, primary and alias copy
+of the leaf) the reverse pass gives `vpre ++ [chosen] ++ vpost` — `chosen` as in `C14_patterns` — in the three
+patterns primary-only / alias-only / neither, and the error naming the field when both are set.  For the library:
+the siblings' values pass through untouched and do not influence the aliased field's outcome, whichever of them
+are set.  (Fuel `≥ 2`: one for the layer, one for the look at each output field's type.) -/
+theorem C14_layer_patterns (tags : List String) (fuel : Nat) (pre post : List FT) (h : Hdr) (t : Ty)
+    (tag a : String) (vpre vpost : List Val) (vp va : Val)
+    (hpre : Plain tags pre) (hpost : Plain tags post)
+    (ht : tag ∈ tags) (ha : tagGet h.tags (tag ++ "alias") = some a) (hst : structish t = none)
+    (hlpre : vpre.length = pre.length) (hlpost : vpost.length = post.length) :
+    let run := unmangleLayer (fuel + 2) (aliasMangler tags) (pre ++ [(h, t)] ++ post) (vpre ++ [vp, va] ++ vpost)
+    (isUnsetAt t vp = false → isUnsetAt t va = true → run = .ok (vpre ++ [vp] ++ vpost)) ∧
+    (isUnsetAt t vp = true → isUnsetAt t va = false → run = .ok (vpre ++ [va] ++ vpost)) ∧
+    (isUnsetAt t vp = true → isUnsetAt t va = true → run = .ok (vpre ++ [vp] ++ vpost)) ∧
+    (isUnsetAt t vp = false → isUnsetAt t va = false →
+      run = .err ("both alias and original set for field " ++ h.name)) :=
+  alias_patterns_of_eq (fun c => vpre ++ [c] ++ vpost) h t (h, t) (h, t) vp va _
+    (unmangleLayer_alias_leaf_framed tags fuel pre post h t vpre vpost vp va (h, t) (h, t) hpre hpost
+      (isAliased_of_tag ht ha) hst hlpre hlpost)
+
+/-- SIBLING INDEPENDENCE, for ARBITRARY siblings (aliased themselves or not, structs below them or not): the
+reverse pass over `pre ++ [(h, t)] ++ post` is the pass over `pre` on the values of `pre`'s outputs, then
+`aliasUnmangle` on the leaf's two values, then the pass over `post` on the remaining values — three independent
+computations in sequence.  The only hypothesis on the values is positional: `vpre` has one value per output field
+of `pre`.  For the library: what a field's sibling holds never changes which of primary / alias wins. -/
+theorem C14_layer_siblings_independent (tags : List String) (fuel : Nat) (pre post : List FT) (h : Hdr) (t : Ty)
+    (tag a : String) (vpre vpost : List Val) (vp va : Val) (fp fa : FT)
+    (ht : tag ∈ tags) (ha : tagGet h.tags (tag ++ "alias") = some a) (hst : structish t = none)
+    (hlpre : vpre.length = (pre.map (aliasWidth tags)).sum) :
+    unmangleLayer (fuel + 2) (aliasMangler tags) (pre ++ [(h, t)] ++ post) (vpre ++ [vp, va] ++ vpost) =
+      seqOut (unmangleLayer (fuel + 2) (aliasMangler tags) pre vpre)
+        (seqOut (mapOut (fun c => [c]) (aliasUnmangle h t [(fp, vp), (fa, va)]))
+          (unmangleLayer (fuel + 2) (aliasMangler tags) post vpost)) :=
+  unmangleLayer_alias_leaf_between tags fuel pre post h t vpre vpost vp va fp fa (isAliased_of_tag ht ha) hst hlpre
+
+/-- the four patterns between ARBITRARY siblings whose own reverse passes succeed (with results `rpre`, `rpost`);
+for the "both" error the fields after the leaf do not matter at all (the pass stops at the first failure) -/
+theorem C14_layer_patterns_any_siblings (tags : List String) (fuel : Nat) (pre post : List FT) (h : Hdr) (t : Ty)
+    (tag a : String) (vpre vpost rpre : List Val) (vp va : Val)
+    (ht : tag ∈ tags) (ha : tagGet h.tags (tag ++ "alias") = some a) (hst : structish t = none)
+    (hlpre : vpre.length = (pre.map (aliasWidth tags)).sum)
+    (hrpre : unmangleLayer (fuel + 2) (aliasMangler tags) pre vpre = .ok rpre) :
+    let run := unmangleLayer (fuel + 2) (aliasMangler tags) (pre ++ [(h, t)] ++ post) (vpre ++ [vp, va] ++ vpost)
+    (∀ rpost, unmangleLayer (fuel + 2) (aliasMangler tags) post vpost = .ok rpost →
+      (isUnsetAt t vp = false → isUnsetAt t va = true → run = .ok (rpre ++ ([vp] ++ rpost))) ∧
+      (isUnsetAt t vp = true → isUnsetAt t va = false → run = .ok (rpre ++ ([va] ++ rpost))) ∧
+      (isUnsetAt t vp = true → isUnsetAt t va = true → run = .ok (rpre ++ ([vp] ++ rpost)))) ∧
+    (isUnsetAt t vp = false → isUnsetAt t va = false →
+      run = .err ("both alias and original set for field " ++ h.name)) := by
+  intro run
+  have e : run = _ := C14_layer_siblings_independent tags fuel pre post h t tag a vpre vpost vp va (h, t) (h, t)
+    ht ha hst hlpre
+  have hp := C14_patterns h t (h, t) (h, t) vp va
+  rw [hrpre] at e
+  refine ⟨fun rpost hrpost => ⟨?_, ?_, ?_⟩, ?_⟩
+  · intro h1 h2; rw [e, hp.1 h1 h2, hrpost]; rfl
+  · intro h1 h2; rw [e, hp.2.1 h1 h2, hrpost]; rfl
+  · intro h1 h2; rw [e, hp.2.2.1 h1 h2, hrpost]; rfl
+  · intro h1 h2; rw [e, hp.2.2.2 h1 h2]; rfl
+
+/-- NESTING DEPTH IS IRRELEVANT, in general: let the reverse pass over a layer `I` on the values `vs` have the
+outcome `R` (a result or a failure) for every fuel from `b` on, and let the forward pass over `I` succeed.  Nest `I`
+below `Ls.length` struct-typed fields without alias tags — each held as `*struct`, struct by value, `[]struct` or
+`[n]struct` (`Level.held`; for the collections the struct is the one element), each between plain siblings with
+arbitrary values (`nestLayer Ls I` is the top layer of that type, `nestVals Ls vs` its values).  Then the reverse
+pass over the top layer has the outcome `R` again: the same failure, or the result nested the same way, the
+siblings' values at every level untouched.  Fuel: `2` per level on top of `b`. -/
+theorem C14_depth_independent (tags : List String) (I : List FT) (vs : List Val) (R : Outcome (List Val)) (b : Nat)
+    (hI : ∀ f, b ≤ f → unmangleLayer f (aliasMangler tags) I vs = R)
+    (hM : ∀ f, b ≤ f → ∃ r, mangleLayer f (aliasMangler tags) I = .ok r)
+    (Ls : List Level) (hLs : ∀ L ∈ Ls, L.WF tags) (fuel : Nat) (hfuel : 2 * Ls.length + b ≤ fuel) :
+    unmangleLayer fuel (aliasMangler tags) (nestLayer Ls I) (nestVals Ls vs) = mapOut (nestVals Ls) R :=
+  (nest_lift tags I vs R b hI hM Ls hLs fuel hfuel).1
+
+/-- THE FOUR PATTERNS AT ANY DEPTH.  The layer `pre ++ [(h, t)] ++ post` of `C14_layer_patterns` nested below
+`Ls.length` levels (see `C14_depth_independent`; any mix of `*struct`, struct, `[]struct`, `[n]struct` levels, plain
+siblings with arbitrary values at every level): the reverse pass over the TOP layer, on the nested values whose
+innermost struct holds `vpre ++ [vp, va] ++ vpost`, gives the nested values whose innermost struct holds
+`vpre ++ [chosen] ++ vpost` in the three non-error patterns, and the error naming the field when both are set —
+for every fuel `≥ 2 * Ls.length + 2`.  For the library: an alias works the same at every nesting depth, whatever
+else is set on the way down. -/
+theorem C14_patterns_at_depth (tags : List String) (Ls : List Level) (pre post : List FT) (h : Hdr) (t : Ty)
+    (tag a : String) (vpre vpost : List Val) (vp va : Val)
+    (hLs : ∀ L ∈ Ls, L.WF tags) (hpre : Plain tags pre) (hpost : Plain tags post)
+    (ht : tag ∈ tags) (ha : tagGet h.tags (tag ++ "alias") = some a) (hst : structish t = none)
+    (hlpre : vpre.length = pre.length) (hlpost : vpost.length = post.length)
+    (fuel : Nat) (hfuel : 2 * Ls.length + 2 ≤ fuel) :
+    let run := unmangleLayer fuel (aliasMangler tags) (nestLayer Ls (pre ++ [(h, t)] ++ post))
+      (nestVals Ls (vpre ++ [vp, va] ++ vpost))
+    (isUnsetAt t vp = false → isUnsetAt t va = true → run = .ok (nestVals Ls (vpre ++ [vp] ++ vpost))) ∧
+    (isUnsetAt t vp = true → isUnsetAt t va = false → run = .ok (nestVals Ls (vpre ++ [va] ++ vpost))) ∧
+    (isUnsetAt t vp = true → isUnsetAt t va = true → run = .ok (nestVals Ls (vpre ++ [vp] ++ vpost))) ∧
+    (isUnsetAt t vp = false → isUnsetAt t va = false →
+      run = .err ("both alias and original set for field " ++ h.name)) :=
+  alias_patterns_of_eq (fun c => nestVals Ls (vpre ++ [c] ++ vpost)) h t (h, t) (h, t) vp va _
+    (unmangleLayer_alias_leaf_nested tags Ls pre post h t vpre vpost vp va (h, t) (h, t) hLs hpre hpost
+      (isAliased_of_tag ht ha) hst hlpre hlpost fuel hfuel)
+
+/-- `C14_patterns_at_depth` spelled out for the shape Pointerify produces, a chain of lone pointer-to-struct
+fields `H0 :: Hs` without alias tags: `nestTy Hs inner` is `struct { H₁ *struct { H₂ *struct { … inner } } }`,
+`nestVal n vs` the struct value of that type whose innermost struct holds `vs`.  The top layer is the one field
+`H0 *nestTy Hs …`; fuel `≥ 2 * Hs.length + 4` (`Hs.length + 1` levels). -/
+theorem C14_patterns_at_depth_ptr_chain (tags : List String) (H0 : Hdr) (Hs : List Hdr) (pre post : List FT)
+    (h : Hdr) (t : Ty) (tag a : String) (vpre vpost : List Val) (vp va : Val)
+    (hHs : ∀ H ∈ H0 :: Hs, NoAliasTag tags H) (hpre : Plain tags pre) (hpost : Plain tags post)
+    (ht : tag ∈ tags) (ha : tagGet h.tags (tag ++ "alias") = some a) (hst : structish t = none)
+    (hlpre : vpre.length = pre.length) (hlpost : vpost.length = post.length)
+    (fuel : Nat) (hfuel : 2 * Hs.length + 4 ≤ fuel) :
+    let run := unmangleLayer fuel (aliasMangler tags) [(H0, .ptr (nestTy Hs (pre ++ [(h, t)] ++ post)))]
+      [.ptr (nestVal Hs.length (vpre ++ [vp, va] ++ vpost))]
+    (isUnsetAt t vp = false → isUnsetAt t va = true →
+      run = .ok [.ptr (nestVal Hs.length (vpre ++ [vp] ++ vpost))]) ∧
+    (isUnsetAt t vp = true → isUnsetAt t va = false →
+      run = .ok [.ptr (nestVal Hs.length (vpre ++ [va] ++ vpost))]) ∧
+    (isUnsetAt t vp = true → isUnsetAt t va = true →
+      run = .ok [.ptr (nestVal Hs.length (vpre ++ [vp] ++ vpost))]) ∧
+    (isUnsetAt t vp = false → isUnsetAt t va = false →
+      run = .err ("both alias and original set for field " ++ h.name)) := by
+  have hwf : ∀ L ∈ (H0 :: Hs).map ptrLevel, L.WF tags := by
+    intro L hL
+    obtain ⟨H, hH, rfl⟩ := List.mem_map.1 hL
+    exact ptrLevel_WF (hHs H hH)
+  have := C14_patterns_at_depth tags ((H0 :: Hs).map ptrLevel) pre post h t tag a vpre vpost vp va hwf hpre hpost
+    ht ha hst hlpre hlpost fuel (by simp; omega)
+  simpa only [nestLayer_ptrChain, nestVals_ptrChain] using this
+
+/-- A NIL POINTER (or nil slice) AT ANY LEVEL comes back nil: the struct-typed field `L.hdr` (held as `*struct` or
+`[]struct`) is nil, `Ls.length` levels deep, above the `Ls'.length` further levels that lead to the aliased leaf's
+layer — the reverse pass hands every value back as it was (nothing below a nil pointer is visited; the siblings
+pass through). -/
+theorem C14_nil_at_depth (tags : List String) (Ls Ls' : List Level) (L : Level) (pre post : List FT) (h : Hdr)
+    (t : Ty) (hLs : ∀ L' ∈ Ls, L'.WF tags) (hL : L.WF tags) (hLs' : ∀ L' ∈ Ls', L'.WF tags)
+    (hw : L.held = .ptr ∨ L.held = .slice)
+    (hpre : Plain tags pre) (hpost : Plain tags post) (hst : structish t = none)
+    (fuel : Nat) (hfuel : 2 * (Ls.length + 1 + Ls'.length) + 2 ≤ fuel) :
+    unmangleLayer fuel (aliasMangler tags) (nestLayer (Ls ++ L :: Ls') (pre ++ [(h, t)] ++ post))
+        (nestVals Ls (L.vpre ++ [.nilv] ++ L.vpost)) =
+      .ok (nestVals Ls (L.vpre ++ [.nilv] ++ L.vpost)) := by
+  rw [nestLayer_append]
+  refine unmangleLayer_nil_nested tags Ls L (nestLayer Ls' (pre ++ [(h, t)] ++ post)) (2 * Ls'.length + 2)
+    hLs hL hw ?_ fuel (by omega)
+  intro f hf
+  exact mangleLayer_nest_ok tags (pre ++ [(h, t)] ++ post) 2
+    (fun f' hf' => by
+      obtain ⟨k, rfl⟩ : ∃ k, f' = k + 2 := ⟨f' - 2, by omega⟩
+      exact mangleLayer_alias_leaf_framed_ok tags k pre post h t hpre hpost hst)
+    Ls' hLs' f hf
+
+/-- A NIL POINTER ABOVE ANY TYPE: as `C14_nil_at_depth`, with an ARBITRARY layer `below` under the nil pointer
+(aliased fields, further structs, collections, anything); `b` bounds twice the size of its field types (the fuel
+the forward pass needs to look at the type once). -/
+theorem C14_nil_at_depth_any_type (tags : List String) (Ls : List Level) (L : Level) (below : List FT) (b : Nat)
+    (hLs : ∀ L' ∈ Ls, L'.WF tags) (hL : L.WF tags) (hw : L.held = .ptr ∨ L.held = .slice)
+    (hb1 : 1 ≤ b) (hb : ∀ f ∈ below, 2 * tySize f.2 + 1 ≤ b)
+    (fuel : Nat) (hfuel : 2 * Ls.length + (b + 2) ≤ fuel) :
+    unmangleLayer fuel (aliasMangler tags)
+        (nestLayer Ls (L.pre ++ [(L.hdr, L.held.ty (Fields.ofList below))] ++ L.post))
+        (nestVals Ls (L.vpre ++ [.nilv] ++ L.vpost)) =
+      .ok (nestVals Ls (L.vpre ++ [.nilv] ++ L.vpost)) :=
+  unmangleLayer_nil_nested tags Ls L below b hLs hL hw
+    (fun f hf => mangleLayer_alias_total tags below f (by omega) (fun g hg => by have := hb g hg; omega))
+    fuel hfuel
+
+/-- THE ELEMENTS OF A COLLECTION ARE INDEPENDENT: for a field `H` (no alias tags) of type `[]struct{I}` or
+`[n]struct{I}` holding the struct values `vss`, the reverse pass is the reverse pass over the element layer `I`
+on each element's values in turn — the first failing element decides the failure, otherwise the results are
+collected in order.  With `C14_layer_patterns` / `C14_patterns_at_depth` for `I`: an aliased field of an element
+struct resolves per element, whatever the other elements hold.  (`j`: the fuel of the element passes; it also
+covers one look at the element type: above twice the size of its field types.) -/
+theorem C14_collection_elements_independent (tags : List String) (j : Nat) (H : Hdr) (w : Held) (I : List FT)
+    (vss : List (List Val)) (hn : NoAliasTag tags H) (hw : w = .slice ∨ ∃ n, w = .array n)
+    (hj1 : 1 ≤ j) (hj : ∀ f ∈ I, 2 * tySize f.2 + 1 ≤ j) :
+    unmangleLayer (j + 2) (aliasMangler tags) [(H, w.ty (Fields.ofList I))] [.list (vss.map Val.struct)] =
+      mapOut (fun rs => [.list (rs.map Val.struct)]) (mapM' (unmangleLayer j (aliasMangler tags) I) vss) := by
+  rw [unmangleLayer_noalias_single tags (j + 1) _ _ _ hn, recurseVal_collection tags j H w I vss hw]
+  obtain ⟨o', ho'⟩ := recurseType_wrap_ok tags j H w I (mangleLayer_alias_total tags I j hj1 hj)
+  rw [ho']
+  cases mapM' (unmangleLayer j (aliasMangler tags) I) vss <;> rfl
+
+/-! #### non-vacuity: a concrete type with the aliased leaf two levels down -/
+namespace Ex2
+
+def tags : List String := ["dials", "dialsenv"]
+def strP : Ty := .ptr (.basic .str false)
+
+/-- `Host *string` -/
+def host : FT := ({ name := "Host", tags := [("dials", "host")] }, strP)
+/-- `Port *string` with `dials:"port" dialsalias:"oldport"` -/
+def portH : Hdr := { name := "Port", tags := [("dials", "port"), ("dialsalias", "oldport")] }
+/-- `Debug *bool` -/
+def debug : FT := ({ name := "Debug", tags := [] }, .ptr (.basic .bool false))
+
+/-- outer level: `Name *string; Server *struct{…}` -/
+def L0 : Level :=
+  { pre := [({ name := "Name", tags := [] }, strP)], hdr := { name := "Server", tags := [("dials", "server")] },
+    held := .ptr, post := [], vpre := [.ptr (.s "n")], vpost := [] }
+/-- inner level: `Listen *struct{…}; Timeout *time.Duration` -/
+def L1 : Level :=
+  { pre := [], hdr := { name := "Listen", tags := [] }, held := .ptr,
+    post := [({ name := "Timeout", tags := [("dialsenv", "TIMEOUT")] }, .ptr .dur)], vpre := [], vpost := [.nilv] }
+
+/-- the top layer: `Name *string; Server *struct{ Listen *struct{ Host; Port (aliased); Debug }; Timeout }` -/
+theorem top_layer :
+    nestLayer [L0, L1] ([host] ++ [(portH, strP)] ++ [debug]) =
+      [({ name := "Name", tags := [] }, strP),
+       ({ name := "Server", tags := [("dials", "server")] },
+        .ptr (.struct (Fields.ofList
+          [({ name := "Listen", tags := [] },
+            .ptr (.struct (Fields.ofList [host, (portH, strP), debug]))),
+           ({ name := "Timeout", tags := [("dialsenv", "TIMEOUT")] }, .ptr .dur)])))] := rfl
+
+/-- the top layer's values with `vp`, `va` for the primary and alias copy of `Port` -/
+def vals (vp va : Val) : List Val := nestVals [L0, L1] ([.ptr (.s "h")] ++ [vp, va] ++ [.nilv])
+/-- … and with the single value `c` for `Port` -/
+def res (c : Val) : List Val := nestVals [L0, L1] ([.ptr (.s "h")] ++ [c] ++ [.nilv])
+
+theorem vals_eq (vp va : Val) :
+    vals vp va = [.ptr (.s "n"), .ptr (.struct [.ptr (.struct [.ptr (.s "h"), vp, va, .nilv]), .nilv])] := rfl
+
+/-- every hypothesis of `C14_patterns_at_depth` holds -/
+theorem hyps :
+    (∀ L ∈ [L0, L1], L.WF tags) ∧ Plain tags [host] ∧ Plain tags [debug] ∧ "dials" ∈ tags ∧
+    tagGet portH.tags ("dials" ++ "alias") = some "oldport" ∧ structish strP = none := by
+  have hp : ∀ (f : FT), NoAliasTag tags f.1 → structish f.2 = none → Plain tags [f] := by
+    intro f h1 h2 g hg
+    simp only [List.mem_singleton] at hg
+    subst hg
+    exact ⟨h1, h2⟩
+  refine ⟨?_, hp _ (by unfold NoAliasTag; decide) rfl, hp _ (by unfold NoAliasTag; decide) rfl,
+    by decide, by decide, rfl⟩
+  intro L hL
+  simp only [List.mem_cons, List.not_mem_nil, or_false] at hL
+  rcases hL with rfl | rfl
+  · exact ⟨hp _ (by unfold NoAliasTag; decide) rfl, fun _ h => (by cases h), by unfold NoAliasTag; decide, rfl, rfl⟩
+  · exact ⟨fun _ h => (by cases h), hp _ (by unfold NoAliasTag; decide) rfl, by unfold NoAliasTag; decide, rfl, rfl⟩
+
+/-- `C14_patterns_at_depth` on this type: fuel `6 = 2 * 2 + 2` -/
+theorem patterns (vp va : Val) :
+    let run := unmangleLayer 6 (aliasMangler tags) (nestLayer [L0, L1] ([host] ++ [(portH, strP)] ++ [debug]))
+      (vals vp va)
+    (isUnsetAt strP vp = false → isUnsetAt strP va = true → run = .ok (res vp)) ∧
+    (isUnsetAt strP vp = true → isUnsetAt strP va = false → run = .ok (res va)) ∧
+    (isUnsetAt strP vp = true → isUnsetAt strP va = true → run = .ok (res vp)) ∧
+    (isUnsetAt strP vp = false → isUnsetAt strP va = false →
+      run = .err ("both alias and original set for field " ++ portH.name)) :=
+  C14_patterns_at_depth tags [L0, L1] [host] [debug] portH strP "dials" "oldport" [.ptr (.s "h")] [.nilv] vp va
+    hyps.1 hyps.2.1 hyps.2.2.1 hyps.2.2.2.1 hyps.2.2.2.2.1 hyps.2.2.2.2.2 rfl rfl 6 (by decide)
+
+/-- the same four patterns by plain evaluation of the model (no theorem involved) -/
+theorem computed :
+    let run := fun vp va => unmangleLayer 6 (aliasMangler tags)
+      (nestLayer [L0, L1] ([host] ++ [(portH, strP)] ++ [debug])) (vals vp va)
+    run (.ptr (.s "8080")) .nilv = .ok (res (.ptr (.s "8080"))) ∧
+    run .nilv (.ptr (.s "80")) = .ok (res (.ptr (.s "80"))) ∧
+    run .nilv .nilv = .ok (res .nilv) ∧
+    run (.ptr (.s "8080")) (.ptr (.s "80")) = .err "both alias and original set for field Port" :=
+  ⟨rfl, rfl, rfl, rfl⟩
+
+/-- the fuel bound `2 * Ls.length + 2` is sharp here: one less and the model runs out of fuel -/
+theorem fuel_sharp :
+    unmangleLayer 5 (aliasMangler tags) (nestLayer [L0, L1] ([host] ++ [(portH, strP)] ++ [debug]))
+      (vals (.ptr (.s "8080")) .nilv) = .err "fuel" := rfl
+
+/-- … and so is the `fuel + 2` of `C14_layer_patterns`: with fuel `1` the bare layer runs out of fuel -/
+theorem layer_fuel_sharp :
+    unmangleLayer 1 (aliasMangler tags) ([host] ++ [(portH, strP)] ++ [debug])
+      ([.ptr (.s "h")] ++ [.ptr (.s "8080"), .nilv] ++ [.nilv]) = .err "fuel" := rfl
+
+/-- a nil `Server` pointer comes back nil (`C14_nil_at_depth`: `Ls = []`, `L = L0`, `Ls' = [L1]`) -/
+theorem nil_server :
+    unmangleLayer 6 (aliasMangler tags) (nestLayer [L0, L1] ([host] ++ [(portH, strP)] ++ [debug]))
+      [.ptr (.s "n"), .nilv] = .ok [.ptr (.s "n"), .nilv] :=
+  C14_nil_at_depth tags [] [L1] L0 [host] [debug] portH strP (fun _ h => (by cases h)) (hyps.1 L0 (by simp))
+    (fun L hL => hyps.1 L (by simp only [List.mem_singleton] at hL; simp [hL])) (Or.inl rfl)
+    hyps.2.1 hyps.2.2.1 rfl 6 (by decide)
+
+end Ex2
+
+/-! #### non-vacuity: the other ways of holding a struct, and "unset" as "zero" -/
+namespace Ex3
+open Ex2 (tags)
+
+/-- `Port int` with `dials:"port" dialsalias:"oldport"`: a field of an element struct is not pointerified -/
+def portH : Hdr := { name := "Port", tags := [("dials", "port"), ("dialsalias", "oldport")] }
+def intT : Ty := .basic (.int .int) false
+
+/-- `Servers []struct{…}` -/
+def L0 : Level :=
+  { pre := [], hdr := { name := "Servers", tags := [] }, held := .slice, post := [], vpre := [], vpost := [] }
+/-- `Listen struct{…}` held by value -/
+def L1 : Level :=
+  { pre := [], hdr := { name := "Listen", tags := [] }, held := .byValue, post := [], vpre := [], vpost := [] }
+/-- `Pair [1]struct{…}` -/
+def L2 : Level :=
+  { pre := [], hdr := { name := "Pair", tags := [] }, held := .array 1, post := [], vpre := [], vpost := [] }
+
+theorem top_layer :
+    nestLayer [L0, L1, L2] ([] ++ [(portH, intT)] ++ []) =
+      [({ name := "Servers", tags := [] },
+        .slice (.struct (Fields.ofList
+          [({ name := "Listen", tags := [] },
+            .struct (Fields.ofList
+              [({ name := "Pair", tags := [] }, .array 1 (.struct (Fields.ofList [(portH, intT)])))]))])))] := rfl
+
+def vals (vp va : Val) : List Val := nestVals [L0, L1, L2] ([] ++ [vp, va] ++ [])
+def res (c : Val) : List Val := nestVals [L0, L1, L2] ([] ++ [c] ++ [])
+
+theorem vals_eq (vp va : Val) :
+    vals vp va = [.list [.struct [.struct [.list [.struct [vp, va]]]]]] := rfl
+
+theorem hyps : ∀ L ∈ [L0, L1, L2], L.WF tags := by
+  intro L hL
+  simp only [List.mem_cons, List.not_mem_nil, or_false] at hL
+  rcases hL with rfl | rfl | rfl <;>
+    exact ⟨fun _ h => (by cases h), fun _ h => (by cases h), by unfold NoAliasTag; decide, rfl, rfl⟩
+
+/-- `C14_patterns_at_depth` below a slice, a by-value struct and an array: fuel `8 = 2 * 3 + 2` -/
+theorem patterns (vp va : Val) :
+    let run := unmangleLayer 8 (aliasMangler tags) (nestLayer [L0, L1, L2] ([] ++ [(portH, intT)] ++ []))
+      (vals vp va)
+    (isUnsetAt intT vp = false → isUnsetAt intT va = true → run = .ok (res vp)) ∧
+    (isUnsetAt intT vp = true → isUnsetAt intT va = false → run = .ok (res va)) ∧
+    (isUnsetAt intT vp = true → isUnsetAt intT va = true → run = .ok (res vp)) ∧
+    (isUnsetAt intT vp = false → isUnsetAt intT va = false →
+      run = .err ("both alias and original set for field " ++ portH.name)) :=
+  C14_patterns_at_depth tags [L0, L1, L2] [] [] portH intT "dials" "oldport" [] [] vp va
+    hyps (fun _ h => (by cases h)) (fun _ h => (by cases h)) (by decide) (by decide) rfl rfl rfl 8 (by decide)
+
+/-- by plain evaluation; "unset" is the zero value here -/
+theorem computed :
+    let run := fun vp va => unmangleLayer 8 (aliasMangler tags)
+      (nestLayer [L0, L1, L2] ([] ++ [(portH, intT)] ++ [])) (vals vp va)
+    run (.i 8080) (.i 0) = .ok (res (.i 8080)) ∧
+    run (.i 0) (.i 80) = .ok (res (.i 80)) ∧
+    run (.i 0) (.i 0) = .ok (res (.i 0)) ∧
+    run (.i 8080) (.i 80) = .err "both alias and original set for field Port" :=
+  ⟨rfl, rfl, rfl, rfl⟩
+
+/-- `C14_collection_elements_independent` by evaluation: three elements of `Servers []struct{ Port int (aliased) }`
+— primary set, alias set, neither — resolve one by one; with a fourth element that has both set the pass fails -/
+theorem elements :
+    let layer : List FT := [({ name := "Servers", tags := [] }, Held.slice.ty (Fields.ofList [(portH, intT)]))]
+    unmangleLayer 5 (aliasMangler tags) layer
+        [.list [.struct [.i 1, .i 0], .struct [.i 0, .i 2], .struct [.i 0, .i 0]]] =
+      .ok [.list [.struct [.i 1], .struct [.i 2], .struct [.i 0]]] ∧
+    unmangleLayer 5 (aliasMangler tags) layer
+        [.list [.struct [.i 1, .i 0], .struct [.i 0, .i 2], .struct [.i 0, .i 0], .struct [.i 3, .i 4]]] =
+      .err "both alias and original set for field Port" :=
+  ⟨rfl, rfl⟩
+
+end Ex3
 
 end Dials.C14
